@@ -877,3 +877,379 @@ class Types2Rfc:
 
 
 ALL = [EnumStore, BitsStore, BinStore, StrLenStore, UnionStore, Cmp2, Sort2]
+
+
+# ------------------------------------------------------------------------------------------------
+# ietf-inet-types / ietf-yang-types derived types: RFC 6991 (+ RFC 5952, RFC 3339) reference for the canonical
+# string and for value equality, independent of the implementation
+# ------------------------------------------------------------------------------------------------
+import calendar       # noqa: E402
+import itertools      # noqa: E402
+import unicodedata    # noqa: E402
+
+V4_OCT = r"(?:[0-9]|[1-9][0-9]|1[0-9][0-9]|2[0-4][0-9]|25[0-5])"
+V4_RE = re.compile(r"(%s)\.(%s)\.(%s)\.(%s)" % ((V4_OCT,) * 4))
+V4_EMB_RE = re.compile(r"(?:(?:25[0-5]|2[0-4][0-9]|[01]?[0-9]?[0-9])\.){3}(?:25[0-5]|2[0-4][0-9]|[01]?[0-9]?[0-9])")     # inside ipv6-address
+HEXPAIRS = r"[0-9a-fA-F]{2}(?::[0-9a-fA-F]{2})*"
+
+
+def _txt(b):
+    try:
+        t = b.decode("utf-8")
+    except UnicodeDecodeError:
+        return None
+    return t if all(gens.is_yang_char(ord(c)) for c in t) else None
+
+
+def _zone_ok(z):
+    """RFC 6991 pattern (%[\\p{N}\\p{L}]+)"""
+    return len(z) > 0 and all(unicodedata.category(c)[0] in "NL" for c in z)
+
+
+def _split_zone(t, zone):
+    if "%" in t:
+        a, z = t.split("%", 1)
+        if not zone or not _zone_ok(z):
+            return None
+        return a, "%" + z
+    return t, ""
+
+
+def v4_parse(t):
+    m = V4_RE.fullmatch(t)
+    return None if not m else (int(m.group(1)) << 24) | (int(m.group(2)) << 16) | (int(m.group(3)) << 8) | int(m.group(4))
+
+
+def v4_text(a):
+    return "%d.%d.%d.%d" % (a >> 24 & 255, a >> 16 & 255, a >> 8 & 255, a & 255)
+
+
+def v6_parse(t):
+    """RFC 4291 2.2 text form within the RFC 6991 patterns -> 128-bit number or None"""
+    if t.count("::") > 1 or ":::" in t:
+        return None
+    tail4 = None
+    if "." in t:
+        i = t.rfind(":")
+        if i < 0 or not V4_EMB_RE.fullmatch(t[i + 1:]):
+            return None
+        o = [int(x) for x in t[i + 1:].split(".")]
+        tail4 = (o[0] << 24) | (o[1] << 16) | (o[2] << 8) | o[3]
+        t = t[:i + 1] + "0:0"            # two groups stand for the dotted quad
+    if "::" in t:
+        l, r = t.split("::")
+        lg = l.split(":") if l else []
+        rg = r.split(":") if r else []
+        if len(lg) + len(rg) > 7:
+            return None
+        groups = lg + ["0"] * (8 - len(lg) - len(rg)) + rg
+    else:
+        groups = t.split(":")
+        if len(groups) != 8:
+            return None
+    v = 0
+    for g in groups:
+        if not re.fullmatch(r"[0-9a-fA-F]{1,4}", g):
+            return None
+        v = (v << 16) | int(g, 16)
+    if tail4 is not None:
+        v = (v & ~0xFFFFFFFF) | tail4
+    return v
+
+
+def _v6_fmt(v):
+    """RFC 5952 section 4: lower case, no leading zeros, the longest run of two or more zero groups (the first one on
+    a tie) written as ::. Section 5 (mixed notation when the address is known to embed an IPv4 address): libyang prints
+    with inet_ntop(), which uses the dotted quad for the IPv4-mapped prefix ::ffff:0:0/96 and for the IPv4-compatible
+    form (exactly the first 96 bits zero and a non-zero bit in the next 16: ::1.2.3.4, ::0.1.0.0) - taken over here as the
+    documented platform behaviour, not reported."""
+    g = [(v >> (16 * (7 - i))) & 0xFFFF for i in range(8)]
+    runs = []
+    i = 0
+    while i < 8:
+        if g[i] == 0:
+            j = i
+            while j < 8 and g[j] == 0:
+                j += 1
+            runs.append((i, j - i))
+            i = j
+        else:
+            i += 1
+    best, blen = -1, 0
+    for st, ln in runs:
+        if ln >= 2 and ln > blen:
+            best, blen = st, ln
+    mixed = best == 0 and (blen == 6 or (blen == 5 and g[5] == 0xFFFF))
+    words = ["%x" % x for x in g]
+    if mixed:
+        words = words[:6] + [v4_text((g[6] << 16) | g[7])]
+        n = 7
+    else:
+        n = 8
+    if best < 0:
+        return ":".join(words)
+    left = words[:best]
+    right = words[min(best + blen, n):] if best + blen <= n else []
+    if mixed and best + blen > 6:
+        right = [words[6]]
+    return ":".join(left) + "::" + ":".join(right)
+
+
+def ref_derived(T, s):
+    """-> canonical string (bytes) of the value s of the derived type T per RFC 6991, or None when s is not a value"""
+    t = _txt(s)
+    if t is None:
+        return None
+    if T in ("ip4", "ip4nz"):
+        r = _split_zone(t, T == "ip4")
+        a = r and v4_parse(r[0])
+        return None if a is None else (v4_text(a) + r[1]).encode()
+    if T in ("ip6", "ip6nz"):
+        r = _split_zone(t, T == "ip6")
+        a = r and v6_parse(r[0])
+        return None if a is None else (_v6_fmt(a) + r[1]).encode()
+    if T == "ipa":
+        return ref_derived("ip4", s) or ref_derived("ip6", s)
+    if T == "ip4p":
+        m = re.fullmatch(r"([^/]*)/([0-9]|[1-2][0-9]|3[0-2])", t)
+        a = m and v4_parse(m.group(1))
+        if a is None:
+            return None
+        n = int(m.group(2))
+        return ("%s/%d" % (v4_text(a & (0xFFFFFFFF << (32 - n)) & 0xFFFFFFFF), n)).encode()
+    if T == "ip6p":
+        m = re.fullmatch(r"([^/]*)/([0-9]|[0-9]{2}|1[0-1][0-9]|12[0-8])", t)
+        a = m and v6_parse(m.group(1))
+        if a is None:
+            return None
+        n = int(m.group(2))
+        mask = ((1 << 128) - 1) ^ ((1 << (128 - n)) - 1)
+        return ("%s/%d" % (_v6_fmt(a & mask), n)).encode()
+    if T == "ipp":
+        return ref_derived("ip4p", s) or ref_derived("ip6p", s)
+    if T in ("hx", "phys"):
+        return t.lower().encode() if re.fullmatch("(%s)?" % HEXPAIRS, t) else None
+    if T == "mac":
+        return t.lower().encode() if re.fullmatch(r"[0-9a-fA-F]{2}(:[0-9a-fA-F]{2}){5}", t) else None
+    if T == "uu":
+        return t.lower().encode() if re.fullmatch(r"[0-9a-fA-F]{8}-[0-9a-fA-F]{4}-[0-9a-fA-F]{4}-[0-9a-fA-F]{4}-[0-9a-fA-F]{12}", t) else None
+    if T == "dt":
+        return ref_dt(t)
+    if T == "idr":
+        # identityref {base ba; base bb;}: only iab and iab2 derive from both; canonical = JSON form module:name
+        m = re.fullmatch(r"(?:types2:)?(iab2?)", t)
+        return ("types2:" + m.group(1)).encode() if m else None
+    raise KeyError(T)
+
+
+def ref_dt(t):
+    """RFC 6991 date-and-time: RFC 3339 date-time (section 5.6 grammar, 5.7 restrictions). Canonical form: known time
+    zone -> the device's offset (the drivers run with TZ=UTC: +00:00), unknown time zone (-00:00) kept; the fraction
+    digits are kept as written. A leap second (:60) is outside this reference (returns the marker b'?')."""
+    m = re.fullmatch(r"(\d{4})-(\d{2})-(\d{2})T(\d{2}):(\d{2}):(\d{2})(\.\d+)?(Z|[+-]\d{2}:\d{2})", t)
+    if not m:
+        return None
+    y, mo, d, h, mi, sec = (int(m.group(i)) for i in range(1, 7))
+    frac, z = m.group(7) or "", m.group(8)
+    if not (1 <= mo <= 12 and 1 <= d <= calendar.monthrange(y if y else 4, mo)[1] and h <= 23 and mi <= 59 and sec <= 60):
+        return None
+    if z != "Z" and not (int(z[1:3]) <= 23 and int(z[4:6]) <= 59):
+        return None
+    if sec == 60:
+        return b"?"
+    if z == "-00:00":
+        return ("%04d-%02d-%02dT%02d:%02d:%02d%s-00:00" % (y, mo, d, h, mi, sec, frac)).encode()
+    off = 0 if z == "Z" else (1 if z[0] == "+" else -1) * (int(z[1:3]) * 3600 + int(z[4:6]) * 60)
+    if y < 1 or y > 9998:
+        return b"?" if off else ("%04d-%02d-%02dT%02d:%02d:%02d%s+00:00" % (y, mo, d, h, mi, sec, frac)).encode()
+    import datetime
+    try:
+        u = datetime.datetime(y, mo, d, h, mi, sec) - datetime.timedelta(seconds=off)
+    except OverflowError:
+        return b"?"
+    return (u.strftime("%Y-%m-%dT%H:%M:%S").rjust(19, "0") + frac + "+00:00").encode()
+
+
+DERIVED = ["ip4", "ip4nz", "ip6", "ip6nz", "ipa", "ip4p", "ip6p", "ipp", "dt", "hx", "phys", "mac", "uu", "idr"]
+V4_PTS = [0, 1, 0x7F000001, 0x7FFFFFFF, 0x80000000, 0xC0A8FE37, 0xFFFFFFFE, 0xFFFFFFFF, 0x0A010203, 0x00FF00FF, 0x55555555, 0xAAAAAAAA]
+V6_PTS = [0, 1, 2, (1 << 128) - 1, 1 << 127, 0x20010DB8 << 96 | 1, 0xFE80 << 112 | 0x1234, 0xFFFF << 32 | 0x01020304, 0x01020304,
+          0x0001000000000002 << 64 | 3, 0x20010DB800000000 << 64 | 0x0001000000000001, int("55555555" * 4, 16), int("aaaaaaaa" * 4, 16),
+          0x0064FF9B << 96 | 0xC0000221, 0xFFFF0000 << 32 | 5, 0x10000, 0xFFFF, 0x1000000000000 << 64]
+
+
+def v6_spellings(rng, v):
+    g = ["%x" % ((v >> (16 * (7 - i))) & 0xFFFF) for i in range(8)]
+    out = [_v6_fmt(v), ":".join(g), ":".join(x.zfill(4) for x in g), ":".join(g).upper(), _v6_fmt(v).upper()]
+    out.append(":".join(g[:6]) + ":" + v4_text(v & 0xFFFFFFFF))
+    # compress another zero run (also a single group: allowed on input)
+    zs = [i for i in range(8) if g[i] == "0"]
+    if zs:
+        i = rng.choice(zs)
+        j = i
+        while j < 8 and g[j] == "0" and rng.random() < 0.7:
+            j += 1
+        j = max(j, i + 1)
+        out.append(":".join(g[:i]) + "::" + ":".join(g[j:]))
+    return out
+
+
+def derived_values(rng, T, tier, scale):
+    """lexical values for the derived type T (bytes), valid spellings of boundary values plus the SourceIndep pools"""
+    k = lambda q, t: int((t if tier == "thorough" else q) * scale)       # noqa: E731
+    out = []
+    if T in ("ip4", "ip4nz", "ipa"):
+        for a in V4_PTS + [rng.getrandbits(32) for _ in range(k(10, 500))]:
+            out += [v4_text(a), v4_text(a) + "%eth0", v4_text(a) + "%1", v4_text(a) + "%Ethé"]
+    if T in ("ip6", "ip6nz", "ipa"):
+        for v in V6_PTS + [rng.getrandbits(128) & rng.getrandbits(128) & rng.choice([(1 << 128) - 1, rng.getrandbits(128)]) for _ in range(k(20, 1500))]:
+            sp = v6_spellings(rng, v)
+            out += sp + [sp[0] + "%eth0", sp[3] + "%ETH0", sp[1] + "%7"]
+    if T in ("ip4p", "ipp"):
+        for n in range(0, 33):
+            pts = V4_PTS if (tier == "thorough" or n in (0, 1, 7, 8, 9, 24, 31, 32)) else rng.sample(V4_PTS, 4)
+            for a in pts + [rng.getrandbits(32)]:
+                out.append("%s/%d" % (v4_text(a), n))
+        out += ["1.2.3.4/33", "1.2.3.4/08", "1.2.3.4/", "1.2.3.4", "01.2.3.4/8", "1.2.3.4/ 8", "1.2.3.4/+8", "1.2.3/8", "1.2.3.4%eth0/8", "1.2.3.4/8%eth0"]
+    if T in ("ip6p", "ipp"):
+        for n in range(0, 129):
+            pts = V6_PTS if tier == "thorough" else rng.sample(V6_PTS, 2) + [(1 << 128) - 1]
+            for v in pts + [rng.getrandbits(128)]:
+                sp = v6_spellings(rng, v)
+                out.append("%s/%d" % (rng.choice(sp), n))
+        out += ["::/129", "::/08", "::/008", "::1/128", "::/", "::", "FFFF::/016", "::ffff:1.2.3.4/100", "1::2/64", "fe80::1%eth0/64", "::/0128"]
+    if T == "dt":
+        base = ["2020-01-01T00:00:00", "2020-02-29T23:59:59", "1999-12-31T23:59:59", "2038-01-19T03:14:08", "1969-12-31T23:59:59", "0001-01-01T00:00:00",
+                "9999-12-31T23:59:59", "2021-03-28T01:30:00", "2020-06-15T12:30:45", "1900-03-01T00:00:00", "2100-02-28T12:00:00", "2000-02-29T00:00:00"]
+        zones = ["Z", "+00:00", "-00:00", "+01:00", "-01:00", "+05:30", "-12:00", "+14:00", "+23:59", "-23:59", "+24:00", "+00:60", "z", "", "+0100", "+1:00"]
+        fracs = ["", ".5", ".50", ".500", ".0", ".000", ".123456789", ".1234567890123", "."]
+        for b in base:
+            for z in zones:
+                out.append(b + rng.choice(fracs) + z)
+            for f in fracs:
+                out.append(b + f + rng.choice(zones[:10]))
+        out += ["2020-02-30T00:00:00Z", "2021-02-29T00:00:00Z", "2020-04-31T00:00:00Z", "2020-13-01T00:00:00Z", "2020-00-10T00:00:00Z", "2020-01-00T00:00:00Z",
+                "2020-01-32T00:00:00Z", "2020-01-01T24:00:00Z", "2020-01-01T23:60:00Z", "2020-01-01T23:59:60Z", "2016-12-31T23:59:60Z", "2020-01-01T23:59:61Z",
+                "1900-02-29T00:00:00Z", "2100-02-29T00:00:00Z", "2020-01-01t00:00:00Z", "2020-01-01 00:00:00Z", "2020-1-1T00:00:00Z", "20200101T000000Z",
+                "2020-01-01T00:00:00Zx", "2020-01-01T00:00:00+01:00x", " 2020-01-01T00:00:00Z", "2020-01-01T00:00:00Z ", "0000-01-01T00:00:00Z",
+                "2020-01-01T00:00:00.5.5Z", "2020-01-01T00:00:00,5Z", "+2020-01-01T00:00:00Z", "2020-01-01T00:00:00-24:00", "2020-01-01T-1:00:00Z"]
+    if T in ("hx", "phys", "mac", "uu"):
+        n = {"hx": [0, 1, 2, 5], "phys": [0, 1, 6, 8], "mac": [6], "uu": [16]}[T]
+        for _ in range(k(12, 400)):
+            b = bytes(rng.randrange(256) for _ in range(rng.choice(n)))
+            if T == "uu":
+                h = b.hex()
+                t = "-".join([h[:8], h[8:12], h[12:16], h[16:20], h[20:]])
+            else:
+                t = ":".join("%02x" % x for x in b)
+            out += [t, t.upper(), "".join(c.upper() if rng.random() < 0.5 else c for c in t)]
+    if T == "idr":
+        out += ["types2:iab", "iab", "types2:iab2", "iab2", "types2:ia", "ia", "t2:iab", "types2:IAB", " iab", "iab ", "types2:ba"]
+    res = [x.encode() for x in out]
+    # the odd spellings of the SourceIndep pools
+    stype = {"ipp": "ip4p", "phys": "hx"}.get(T, T)
+    res += [v for v, _ in values_for(rng, stype, tier, 0.3 * scale)]
+    if T == "ipp":
+        res += [v for v, _ in values_for(rng, "ip6p", tier, 0.3 * scale)]
+    return [v for v in res if b"\0" not in v]
+
+
+class DerivedRfc:
+    """oracle: ietf-inet-types / ietf-yang-types derived types (ipv4/ipv6 address with and without zone, ip-address,
+    ipv4/ipv6/ip-prefix for every prefix length, date-and-time, hex-string, phys-address, mac-address, uuid) and
+    identityref against a Python reference written from RFC 6991, RFC 5952 section 4/5 and RFC 3339: verdict and canonical
+    string, canonicalisation idempotent, two values equal (compare callback and lyd_compare_single) and refused as
+    duplicate leaf-list instances / list keys exactly when their reference canonical strings are equal, and the
+    sorted-insertion result of three values independent of the insertion order (total order)"""
+    name = "derived-rfc"
+    driver = "t_types2"
+    kinds = None
+
+    def gen(self, rng, tier, scale=1.0):
+        L = []
+        for T in DERIVED:
+            vals = derived_values(rng, T, tier, scale)
+            for v in vals:
+                L.append("ci\t%s\t%s" % (T, hexs(v)))
+            good = [v for v in vals if ref_derived(T, v) not in (None, b"?")]
+            if not good:
+                continue
+            bycanon = {}
+            for v in good:
+                bycanon.setdefault(ref_derived(T, v), []).append(v)
+            groups = [g for g in bycanon.values() if len(g) > 1]
+            n = int((4000 if tier == "thorough" else 60) * scale)
+            for _ in range(n):
+                r = rng.random()
+                if r < 0.5 and groups:
+                    a, b = rng.sample(rng.choice(groups), 2)          # same value, two spellings
+                else:
+                    a, b = rng.choice(good), rng.choice(good)
+                L.append("cmp\t%s\t%s\t%s" % (T, hexs(a), hexs(b)))
+                L.append("dupl\t%s\t%s\t%s" % (T, hexs(a), hexs(b)))
+            for _ in range(n // 2):
+                L.append("perm\t%s\t%s" % (T, "\t".join(hexs(rng.choice(good)) for _ in range(3))))
+        # prefix length 0 and full length with host bits, in every form (regression of a seeded change)
+        for T, a, b in (("ip4p", b"192.168.254.55/0", b"0.0.0.0/0"), ("ipp", b"1.2.3.4/0", b"0.0.0.0/0"), ("ip6p", b"2001:db8::1/0", b"::/0"),
+                        ("ipp", b"ffff::1/0", b"::/0"), ("ip4p", b"1.2.3.4/32", b"1.2.3.4/32"), ("ip6p", b"::1/128", b"0:0::1/128")):
+            L += ["cmp\t%s\t%s\t%s" % (T, hexs(a), hexs(b)), "dupl\t%s\t%s\t%s" % (T, hexs(a), hexs(b))]
+        return L
+
+    def judge(self, line, out):
+        f = line.split("\t")
+        T = f[1]
+        if out.startswith("CRASH") or out == "TIMEOUT" or out in ("?", "NUL"):
+            return None, "%s: %s %s" % (line[:200], out, getattr(self, "last_err", "")[-1200:])
+        vals = [unhex(x) for x in f[2:]]
+        refs = [ref_derived(T, v) for v in vals]
+        if f[0] == "ci":
+            want = refs[0]
+            tok = out.split(" ")
+            if want == b"?":
+                # outside the reference (leap second, year overflow): only idempotence
+                if tok[0] != "E" and tok[1] != tok[0]:
+                    return self.tag(T, vals, want, "ci", out), "value %r of %s: canonical %s, stored again %s" % (vals[0], T, show(tok[0]), show(tok[1]))
+                return None
+            got = None if tok[0] == "E" else unhex(tok[0])
+            if got != want:
+                return self.tag(T, vals, want, "ci", out), "value %r of %s: canonical %r, RFC 6991 %r" % (vals[0], T, got, want)
+            if got is not None and tok[1] != tok[0]:
+                return self.tag(T, vals, want, "ci", out), "value %r of %s: canonical %r, stored again %s" % (vals[0], T, got, show(tok[1]))
+            return None
+        if any(r in (None, b"?") for r in refs):
+            return None          # the generator only pairs valid values; mutated ones are judged by ci
+        if f[0] == "cmp":
+            want = "0" if refs[0] == refs[1] else "1"
+            if out != want:
+                return self.tag(T, vals, None, "cmp", out), "compare of %r and %r on %s: %s, expected %s (canonical %r / %r)" % (
+                    vals[0], vals[1], T, out, want, refs[0], refs[1])
+            return None
+        if f[0] == "dupl":
+            want = "DUP" if refs[0] == refs[1] else "OK"
+            if out != "ll=%s k=%s" % (want, want):
+                return self.tag(T, vals, None, "dupl", out), "%r and %r as two leaf-list instances / list keys of %s: %s, expected %s (canonical %r / %r)" % (
+                    vals[0], vals[1], T, out, want, refs[0], refs[1])
+            return None
+        if f[0] == "perm":
+            if out.startswith("DIFF") or out == "E":
+                return self.tag(T, vals, None, "perm", out), "insertion orders of %r on %s give different sequences: %s" % (vals, T, out)
+            got = [unhex(x) for x in out.split(" ")] if out else []
+            if sorted(got) != sorted(refs):
+                return self.tag(T, vals, None, "perm", out), "sorted insertion of %r on %s: %r, expected the values %r" % (vals, T, got, sorted(refs))
+            return None
+        return None
+
+    def tag(self, T, vals, want, f0="ci", out=""):
+        """narrow tags of the listed findings (known_findings.d/types2.json)"""
+        if T == "dt" and f0 == "ci":
+            tok = out.split(" ")
+            if want is None and tok[0] != "E":
+                return "dt-lexical"              # accepted although outside the RFC 6991 pattern / RFC 3339 5.7 calendar rules
+            if len(tok) == 2 and tok[1] == "E" and unhex(tok[0]).startswith(b"10000-"):
+                return "dt-year-10000"
+        if T == "dt" and f0 == "perm" and out.startswith("DIFF"):
+            return "dt-sort"
+        if T == "idr" and f0 == "ci" and want is None and re.fullmatch(rb"(types2:)?i[ab]", vals[0]):
+            return "idref-any-base"
+        if T == "idr" and f0 == "ci" and want is None and vals[0].startswith(b":") and ref_derived(T, vals[0][1:]) is not None:
+            return "idref-empty-prefix"
+        return None
